@@ -105,14 +105,15 @@ def k_exact(f, depth):
     return k
 
 
-def stokes(E, f, th, dd, k):
-    """(uss_x, uss_y, uss) surface Stokes drift; x east, y north components of going-to."""
+def stokes(E, f, th, dd, k, theta=90.0):
+    """(uss_x, uss_y, uss) surface Stokes drift: components of the going-to drift vector along the bearing
+    theta (x; east for the default 90) and along theta - 90 (y; north for the default)."""
     E = np.asarray(E, dtype="float64")
     f = np.asarray(f, dtype="float64")
     w = (4.0 * np.pi * f * k * df_ref(f))[:, None]
-    t = np.radians(np.asarray(th, dtype="float64"))
-    ux = -(E * w * np.sin(t) * dd).sum((-1, -2))
-    uy = -(E * w * np.cos(t) * dd).sum((-1, -2))
+    g = np.radians(np.asarray(th, dtype="float64") + 180.0)          # going-to bearing of each bin
+    ux = (E * w * np.cos(g - np.radians(theta)) * dd).sum((-1, -2))
+    uy = (E * w * np.cos(g - np.radians(theta - 90.0)) * dd).sum((-1, -2))
     us = (E * w * dd).sum((-1, -2))
     return ux, uy, us
 
